@@ -33,7 +33,7 @@ def _world():
     return World(False, None, factory)
 
 
-def _boundary_arrays(ref, ukind, rng):
+def _boundary_arrays(ref, ukind, rng, m=2):
     """a physical object on the boundary of the physical set: pure state, projective measurement, unitary gate"""
     d = ref.d
     G = np.array([[complex(rng.gauss(0, 1), rng.gauss(0, 1)) for _ in range(d)] for _ in range(d)])
@@ -42,7 +42,12 @@ def _boundary_arrays(ref, ukind, rng):
         psi = U[:, 0]
         return [ref.vec(np.outer(psi, psi.conj()))]
     if ukind == "povm":
-        return [ref.vec(np.outer(U[:, k], U[:, k].conj())) for k in range(d)]
+        if m == d:
+            return [ref.vec(np.outer(U[:, k], U[:, k].conj())) for k in range(d)]
+        # m rank-one elements (d/m) |psi_k><psi_k| with the psi_k a rotated tight frame (trine for a qubit, m = 3)
+        import cmath
+        frame = [np.array([cmath.exp(2j * cmath.pi * k * j / m) for j in range(d)]) / np.sqrt(d) for k in range(m)]
+        return [ref.vec((d / m) * np.outer(U @ f, (U @ f).conj())) for f in frame]
     B = ref.B
     hs = np.array([[np.trace(B[a].conj().T @ U @ B[b] @ U.conj().T).real for b in range(d * d)] for a in range(d * d)])
     return [hs]
@@ -59,14 +64,15 @@ def job_estimators(tier="quick", seed=0, part=0, parts=1):
     t11 = Tally(f"estimator-outcomes[part {part + 1} of {parts}]", [STD + "loss_minimization_estimator:LossMinimizationEstimator.calc_estimate",
                                                                     PG + ":ProjectedGradientDescentBacktracking.optimize",
                                                                     CV + "estimator:CvxpyLossMinimizationEstimator.calc_estimate"], prop="C11", what="instance")
-    cfgs = [(kind, ukind, on_para, where) for kind, ukind in (("qst", "state"), ("povmt", "povm"), ("qpt", "gate")) for on_para in (True, False)
+    cfgs = [(kind, ukind, on_para, where) for kind, ukind in (("qst", "state"), ("povmt", "povm"), ("povmt3", "povm"), ("qpt", "gate")) for on_para in (True, False)
             for where in ("interior", "boundary")]
     cfgs = [c for k, c in enumerate(cfgs) if k % parts == part]
     reps = 1 if tier == "quick" else 4
     for (kind, ukind, on_para, where) in cfgs:
-        qt = build_qt(W, kind, dict(states=states, povms=povms), on_para, 2, "all")
+        m_unknown = 3 if kind == "povmt3" else 2
+        qt = build_qt(W, kind.rstrip("3"), dict(states=states, povms=povms), on_para, m_unknown, "all")
         for rep in range(reps):
-            arrays = physical_arrays(ref, ukind, 2, rng) if where == "interior" else _boundary_arrays(ref, ukind, rng)
+            arrays = physical_arrays(ref, ukind, m_unknown, rng) if where == "interior" else _boundary_arrays(ref, ukind, rng, m_unknown)
             true = _build(ukind, c_sys, arrays, on_para)
             tv = _flat(true)
             probs = [np.clip(np.asarray(p, dtype=float), 0, None) for p in qt.calc_prob_dists(true)]
@@ -76,7 +82,8 @@ def job_estimators(tier="quick", seed=0, part=0, parts=1):
                     data = [(1000, p / p.sum()) for p in probs]
                 else:
                     data = [(shots, nprng.multinomial(shots, p / p.sum()) / shots) for p in probs]
-                tag = f"[{kind},{'exact' if shots is None else shots}]"
+                fl = "flag-on" if on_para else "flag-off"
+                tag = f"[{kind},{fl},{'exact' if shots is None else shots}]"
                 entry = (kind, on_para, where, rep, shots)
                 # ---------------- C10: projected linear estimator
                 try:
@@ -91,10 +98,10 @@ def job_estimators(tier="quick", seed=0, part=0, parts=1):
                     t10.check(f"projected-linear/estimate-physical{tag}", ok, entry, "the estimate is physical (1e-6)", "")
                     if shots is None:
                         dv = float(np.abs(_flat(rp.estimated_qoperation) - tv).max())
-                        t10.check("projected-linear/exact-data=>true-object", dv <= 1e-5, entry, "exact data of a physical object return that object", f"max deviation {dv:.3e}")
+                        t10.check(f"projected-linear/exact-data=>true-object[{kind},{fl}]", dv <= 1e-5, entry, "exact data of a physical object return that object", f"max deviation {dv:.3e}")
                 # ---------------- C11: loss minimisation
                 for lossn in ("squared", "entropy"):
-                    ltag = f"[{kind},{lossn},{'exact' if shots is None else shots}]"
+                    ltag = f"[{kind},{fl},{lossn},{'exact' if shots is None else shots}]"
                     modn, clsn = LOSSES[lossn]
                     lmod = W.mod(LF + modn)
                     loss = getattr(lmod, clsn)()
@@ -115,6 +122,8 @@ def job_estimators(tier="quick", seed=0, part=0, parts=1):
                     eo = r.estimated_qoperation
                     ev = np.asarray(r.estimated_var, dtype=float)
                     t11.check(f"loss-minimisation/estimate-physical{ltag}", bool(eo.is_physical(1e-6, 1e-6)), entry, "the estimate is physical (1e-6)", "")
+                    t10.check(f"loss-minimisation/estimate-physical{ltag}", bool(eo.is_physical(1e-6, 1e-6)), entry,
+                              "the loss-minimisation estimate (backtracking projected gradient, both constraints on) is physical (1e-6)", "")
                     lv = float(loss.value(ev))
                     tol = 1e-6 * max(1.0, abs(lv))
                     comp = [("the true object", float(loss.value(true.to_var())))]
@@ -122,10 +131,14 @@ def job_estimators(tier="quick", seed=0, part=0, parts=1):
                         comp.append(("the projected linear estimate", float(loss.value(np.asarray(rp.estimated_var, dtype=float)))))
                     for sc_ in (1e-1, 1e-2, 1e-3):
                         for _ in range(3):
-                            y = eo.generate_from_var(ev + sc_ * np.array([rng.gauss(0, 1) for _ in range(len(ev))]))
-                            with contextlib.redirect_stdout(io.StringIO()):
-                                y = y.calc_proj_physical(max_iteration=20000)
-                            if y.is_physical(1e-9, 1e-9):
+                            try:
+                                y = eo.generate_from_var(ev + sc_ * np.array([rng.gauss(0, 1) for _ in range(len(ev))]))
+                                with contextlib.redirect_stdout(io.StringIO()):
+                                    y = y.calc_proj_physical(max_iteration=20000)
+                                yphys = bool(y.is_physical(1e-9, 1e-9))
+                            except Exception:  # noqa  -- no competitor from this draw (the projection is C05's business)
+                                yphys = False
+                            if yphys:
                                 comp.append((f"a physical point at distance about {sc_:g}", float(loss.value(y.to_var()))))
                     worst = min(comp, key=lambda c: c[1])
                     t11.check(f"loss-minimisation/not-worse-than-physical-competitors{ltag}", lv <= worst[1] + tol, entry,
@@ -133,10 +146,13 @@ def job_estimators(tier="quick", seed=0, part=0, parts=1):
                               f"loss {lv:.6e} at the estimate, {worst[1]:.6e} at {worst[0]}")
                     if shots is None:
                         dv = float(np.abs(_flat(eo) - tv).max())
-                        t11.check(f"loss-minimisation/exact-data=>true-object[{kind},{lossn}]", dv <= (1e-3 if lossn == "entropy" else 1e-5), entry,
+                        t11.check(f"loss-minimisation/exact-data=>true-object[{kind},{fl},{lossn}]", dv <= (1e-3 if lossn == "entropy" else 1e-5), entry,
+                                  "exact data of a physical object return that object", f"max deviation {dv:.3e}")
+                        t10.check(f"loss-minimisation/exact-data=>true-object[{kind},{fl},{lossn}]", dv <= (1e-3 if lossn == "entropy" else 1e-5), entry,
                                   "exact data of a physical object return that object", f"max deviation {dv:.3e}")
                     # CVXPY / SCS solution of the same problem
-                    if lossn == "squared" or tier == "thorough":
+                    # (the CVXPY interface refuses tomography objects with the constraint not built in: ValueError by design)
+                    if on_para and (lossn == "squared" or tier == "thorough"):
                         try:
                             cl = W.mod(CV + "loss_function")
                             ca = W.mod(CV + "minimization_algorithm")
@@ -149,6 +165,8 @@ def job_estimators(tier="quick", seed=0, part=0, parts=1):
                             cphys = bool(rc.estimated_qoperation.is_physical(1e-5, 1e-5))
                         except Exception as e:  # noqa
                             cv, cphys = None, False
+                        t11.check(f"cvxpy-scs/returns-a-physical-estimate{ltag}", cv is not None and cphys, entry,
+                                  "the CVXPY / SCS estimator returns, and its estimate is physical (1e-5)", "raised" if cv is None else "estimate not physical at 1e-5")
                         if cv is not None and cphys:
                             t11.check(f"loss-minimisation/agrees-with-cvxpy-scs{ltag}", abs(lv - cv) <= 1e-5 * max(1.0, abs(lv)), entry,
                                       "the loss at the backtracking estimate equals the loss at the CVXPY / SCS solution of the same problem (1e-5)",
